@@ -260,6 +260,9 @@ UNDECIDED_DESCR = re.compile(
 
 def inject_kani_modules(scratch_repo, files):
     injected = []
+    files = set(files)
+    for f in list(files):
+        files |= set(registry.FILE_DEPS.get(f, []))
     for rel in sorted(files):
         src = os.path.join(ROOT, 'contracts', 'kani', rel)
         dst = os.path.join(scratch_repo, rel)
